@@ -2331,6 +2331,83 @@ derive
 @*/
 pub open spec fn single_marker(k: TokenKind) -> bool { k == TokenKind::MetadataStart || k == TokenKind::Eq }
 
+/// C05: what parse_block guarantees about a block `ts`, seen from the owner of the event queue
+pub open spec fn block_covered<'i>(ts: Seq<Token>, newq: Seq<Event<'i>>, oldq: Seq<Event<'i>>) -> bool {
+    &&& ev_grown(newq, oldq)
+    &&& (ts[0].kind != TokenKind::TextStep && !(newq.last() is Section && newq.last()->name.is_none())
+            ==> covered(ts, ts.len() as int, newq, oldq.len() as int))
+}
+/// C05/C17: all tokens of s in [a, b) are blank (whitespace, comments, newlines).  Opaque: used through the lemmas below.
+#[verifier::opaque]
+pub open spec fn all_blank(s: Seq<Token>, a: int, b: int) -> bool { forall|j: int| a <= j < b ==> empty_kind((#[trigger] s[j]).kind) }
+#[verifier::opaque]
+pub open spec fn no_newline(s: Seq<Token>, a: int, b: int) -> bool { forall|j: int| a <= j < b ==> (#[trigger] s[j]).kind != TokenKind::Newline }
+/// C05/C17: of the first l tokens of s, [a, b) is the block handed to the block parser
+pub open spec fn is_block(s: Seq<Token>, a: int, b: int, l: int) -> bool {
+    &&& 0 <= a < b <= l <= s.len()
+    &&& all_blank(s, 0, a) && all_blank(s, b, l)                   // nothing but blanks is left out
+    &&& !all_blank(s, a, b)                                        // a block is never blank
+    &&& (a == 0 || s[a - 1].kind == TokenKind::Newline)            // it starts at a line start
+    &&& s[b - 1].kind != TokenKind::Newline                        // trailing newlines are trimmed
+    &&& (single_marker(s[a].kind) ==> no_newline(s, a, b))         // a `>>` / `=` line is a block of its own
+}
+pub proof fn lemma_rng_empty(s: Seq<Token>, a: int, b: int)
+    requires b <= a
+    ensures all_blank(s, a, b), no_newline(s, a, b)
+{ reveal(all_blank); reveal(no_newline); }
+pub proof fn lemma_rng_join(s: Seq<Token>, a: int, b: int, c: int)
+    requires a <= b <= c
+    ensures all_blank(s, a, c) == (all_blank(s, a, b) && all_blank(s, b, c)), no_newline(s, a, c) == (no_newline(s, a, b) && no_newline(s, b, c))
+{ reveal(all_blank); reveal(no_newline); }
+pub proof fn lemma_rng_one(s: Seq<Token>, a: int)
+    requires 0 <= a < s.len()
+    ensures all_blank(s, a, a + 1) == empty_kind(s[a].kind), no_newline(s, a, a + 1) == (s[a].kind != TokenKind::Newline)
+{ reveal(all_blank); reveal(no_newline); }
+/// the block is a prefix of the remaining stream: ranges mean the same in both
+pub proof fn lemma_rng_prefix(r0: Seq<Token>, l: int, a: int, b: int)
+    requires 0 <= a <= b <= l <= r0.len()
+    ensures all_blank(r0.subrange(0, l), a, b) == all_blank(r0, a, b)
+{
+    reveal(all_blank);
+    let p = r0.subrange(0, l);
+    if all_blank(p, a, b) { assert forall|j: int| a <= j < b implies empty_kind((#[trigger] r0[j]).kind) by { assert(p[j] == r0[j]); } }
+    if all_blank(r0, a, b) { assert forall|j: int| a <= j < b implies empty_kind((#[trigger] p[j]).kind) by { assert(p[j] == r0[j]); } }
+}
+/// what one more line means for the caller's bookkeeping over the whole remaining stream `r0` (pull_line speaks about `r0.skip(l)`)
+pub proof fn lemma_line(r0: Seq<Token>, l: int)
+    requires 0 <= l <= r0.len()
+    ensures
+        forall|n: int| 0 <= n <= r0.len() - l ==> r0.subrange(0, l) + #[trigger] r0.skip(l).subrange(0, n) == r0.subrange(0, l + n),
+        forall|n: int| 0 <= n <= r0.len() - l ==> #[trigger] r0.skip(l).skip(n) == r0.skip(l + n),
+        forall|n: int| 0 <= n <= r0.len() - l ==> #[trigger] all_blank(r0.skip(l), 0, n) == all_blank(r0, l, l + n),
+        forall|n: int| 0 <= n <= r0.len() - l ==> #[trigger] no_newline(r0.skip(l), 0, n) == no_newline(r0, l, l + n),
+{
+    reveal(all_blank); reveal(no_newline);
+    assert forall|n: int| 0 <= n <= r0.len() - l implies r0.subrange(0, l) + #[trigger] r0.skip(l).subrange(0, n) == r0.subrange(0, l + n) by {
+        assert(r0.subrange(0, l) + r0.skip(l).subrange(0, n) =~= r0.subrange(0, l + n));
+    }
+    assert forall|n: int| 0 <= n <= r0.len() - l implies #[trigger] r0.skip(l).skip(n) == r0.skip(l + n) by {
+        assert(r0.skip(l).skip(n) =~= r0.skip(l + n));
+    }
+    assert forall|n: int| 0 <= n <= r0.len() - l implies #[trigger] all_blank(r0.skip(l), 0, n) == all_blank(r0, l, l + n) by {
+        if all_blank(r0.skip(l), 0, n) { assert forall|j: int| l <= j < l + n implies empty_kind((#[trigger] r0[j]).kind) by { assert(r0.skip(l)[j - l] == r0[j]); } }
+        if all_blank(r0, l, l + n) { assert forall|j: int| 0 <= j < n implies empty_kind((#[trigger] r0.skip(l)[j]).kind) by { assert(r0.skip(l)[j] == r0[l + j]); } }
+    }
+    assert forall|n: int| 0 <= n <= r0.len() - l implies #[trigger] no_newline(r0.skip(l), 0, n) == no_newline(r0, l, l + n) by {
+        if no_newline(r0.skip(l), 0, n) { assert forall|j: int| l <= j < l + n implies (#[trigger] r0[j]).kind != TokenKind::Newline by { assert(r0.skip(l)[j - l] == r0[j]); } }
+        if no_newline(r0, l, l + n) { assert forall|j: int| 0 <= j < n implies (#[trigger] r0.skip(l)[j]).kind != TokenKind::Newline by { assert(r0.skip(l)[j] == r0[l + j]); } }
+    }
+}
+/// the bookkeeping of next_block adds up to the block predicate
+pub proof fn lemma_is_block(r0: Seq<Token>, ls: int, end: int, l: int)
+    requires 0 <= ls < end <= l <= r0.len(), all_blank(r0, 0, ls), all_blank(r0, end, l), !all_blank(r0, ls, end),
+        ls == 0 || r0[ls - 1].kind == TokenKind::Newline, r0[end - 1].kind != TokenKind::Newline,
+        single_marker(r0[ls].kind) ==> no_newline(r0, ls, l - 1),
+    ensures is_block(r0, ls, end, l)
+{
+    if end == l { lemma_rng_join(r0, ls, l - 1, l); lemma_rng_one(r0, l - 1); } else { lemma_rng_join(r0, ls, end, l - 1); }
+}
+
 impl<'i, T> PullParser<'i, T> where T: Iterator<Item = Token> {
     /// the tokens not yet pulled from the lexer
     #[verifier::prophetic]
@@ -2362,20 +2439,23 @@ spec:
                 &&& final(self).blk() == old(self).blk() + old(self).rem().subrange(0, n)
                 &&& final(self).rem() == old(self).rem().skip(n)
                 // [C17] it ends at the first newline token (or at the end of the input)
-                &&& Self::no_newline(old(self).rem(), 0, n - 1)
+                &&& no_newline(old(self).rem(), 0, n - 1)
                 &&& (old(self).rem()[n - 1].kind == TokenKind::Newline || n == old(self).rem().len())
                 // progress: a line that ends with a newline used up iterator fuel
                 &&& (old(self).rem()[n - 1].kind == TokenKind::Newline ==> final(self).fuel() < old(self).fuel())
                 // [C17] a line is empty exactly when it holds only whitespace, comments and the newline
-                &&& r.unwrap().is_empty == Self::all_blank(old(self).rem(), 0, n)
+                &&& r.unwrap().is_empty == all_blank(old(self).rem(), 0, n)
                 &&& r.unwrap().is_single_line == single_marker(old(self).rem()[0].kind)
             }),
 before `for tok in self.tokens.by_ref() {`:
         let ghost mut n: int = 0;    // tokens taken by this call
-        proof { assert(old(self).rem().skip(0) =~= old(self).rem()); assert(old(self).blk() + old(self).rem().subrange(0, 0) =~= old(self).blk()); }
+        proof {
+            assert(old(self).rem().skip(0) =~= old(self).rem()); assert(old(self).blk() + old(self).rem().subrange(0, 0) =~= old(self).blk());
+            lemma_rng_empty(old(self).rem(), 0, 0); lemma_rng_empty(old(self).rem(), 0, -1);
+        }
 loop 0:
             invariant_except_break
-                forall|j: int| 0 <= j < n ==> (#[trigger] old(self).rem()[j]).kind != TokenKind::Newline,
+                no_newline(old(self).rem(), 0, n), n > 0 ==> old(self).rem()[n - 1].kind != TokenKind::Newline,
                 self.rem() == old(self).rem().skip(n),
                 vstd::std_specs::iter::IteratorSpec::decrease(&self.tokens).is_some(), self.fuel() <= old(self).fuel(),
             invariant
@@ -2384,11 +2464,11 @@ loop 0:
                 0 <= n <= old(self).rem().len(), n == self.blk().len() - old(self).blk().len(),
                 (n > 0) == !no_tokens,
                 self.blk() == old(self).blk() + old(self).rem().subrange(0, n),
-                is_empty == (forall|j: int| 0 <= j < n ==> empty_kind((#[trigger] old(self).rem()[j]).kind)),
+                is_empty == all_blank(old(self).rem(), 0, n),
+                no_newline(old(self).rem(), 0, n - 1),
                 is_single_line == (old(self).rem().len() > 0 && single_marker(old(self).rem()[0].kind)),
             ensures
                 self.wf(),
-                forall|j: int| 0 <= j < n - 1 ==> (#[trigger] old(self).rem()[j]).kind != TokenKind::Newline,
                 n > 0 && old(self).rem()[n - 1].kind == TokenKind::Newline ==> self.fuel() < old(self).fuel() && self.rem() == old(self).rem().skip(n),
                 n == 0 || old(self).rem()[n - 1].kind != TokenKind::Newline ==> n == old(self).rem().len() && self.rem().len() == 0,
             decreases self.fuel()
@@ -2400,30 +2480,12 @@ loopbody 0:
                 assert(r0.skip(k).drop_first() =~= r0.skip(k + 1));
                 assert(r0.skip(k)[0] == r0[k]);
                 assert(tok == r0[k]);
+                lemma_rng_join(r0, 0, k, k + 1); lemma_rng_one(r0, k);
                 n = k + 1;
             }
 after `self.block.push(tok);`:
             proof { let r0 = old(self).rem(); assert(old(self).blk() + r0.subrange(0, k + 1) =~= (old(self).blk() + r0.subrange(0, k)).push(r0[k])); }
 @*/
-
-    /// C05: what parse_block guarantees about a block `ts`, seen from the owner of the event queue
-    pub open spec fn block_covered(ts: Seq<Token>, newq: Seq<Event<'i>>, oldq: Seq<Event<'i>>) -> bool {
-        &&& ev_grown(newq, oldq)
-        &&& (ts[0].kind != TokenKind::TextStep && !(newq.last() is Section && newq.last()->name.is_none())
-                ==> covered(ts, ts.len() as int, newq, oldq.len() as int))
-    }
-    /// C05/C17: all tokens of s in [a, b) are blank (whitespace, comments, newlines)
-    pub open spec fn all_blank(s: Seq<Token>, a: int, b: int) -> bool { forall|j: int| a <= j < b ==> empty_kind((#[trigger] s[j]).kind) }
-    pub open spec fn no_newline(s: Seq<Token>, a: int, b: int) -> bool { forall|j: int| a <= j < b ==> (#[trigger] s[j]).kind != TokenKind::Newline }
-    /// C05/C17: of the first l tokens of s, [a, b) is the block handed to the block parser
-    pub open spec fn is_block(s: Seq<Token>, a: int, b: int, l: int) -> bool {
-        &&& 0 <= a < b <= l <= s.len()
-        &&& Self::all_blank(s, 0, a) && Self::all_blank(s, b, l)       // nothing but blanks is left out
-        &&& !Self::all_blank(s, a, b)                                  // a block is never blank
-        &&& (a == 0 || s[a - 1].kind == TokenKind::Newline)            // it starts at a line start
-        &&& s[b - 1].kind != TokenKind::Newline                        // trailing newlines are trimmed
-        &&& (single_marker(s[a].kind) ==> Self::no_newline(s, a, b))   // a `>>` / `=` line is a block of its own
-    }
 
 /*@ fn src/parser/mod.rs PullParser::next_block
 tags C03 C05 C17
@@ -2436,76 +2498,82 @@ spec:
             final(self).blk() == old(self).rem().subrange(0, final(self).blk().len() as int),
             final(self).rem() == old(self).rem().skip(final(self).blk().len() as int),
             // [C05] ... and when it finds no block, everything that was left was blank
-            r.is_none() ==> final(self).rem().len() == 0 && Self::all_blank(old(self).rem(), 0, old(self).rem().len() as int),   // [C05]
+            r.is_none() ==> final(self).rem().len() == 0 && all_blank(old(self).rem(), 0, old(self).rem().len() as int),   // [C05]
             // [C05] [C17] otherwise the tokens [a, b) went to the block parser (which consumed all of them) and everything else that
             //              was pulled is blank; the block starts at a line start, is not blank, does not end with a newline, and a
             //              line that starts with `>>` or `=` is a block of its own
-            r.is_some() ==> exists|a: int, b: int| #[trigger] Self::is_block(old(self).rem(), a, b, final(self).blk().len() as int)   // [C05] [C17]
-                && Self::block_covered(old(self).rem().subrange(a, b), final(self).q(), old(self).q()),    // [C05] the events went to this parser's queue
+            r.is_some() ==> exists|a: int, b: int| #[trigger] is_block(old(self).rem(), a, b, final(self).blk().len() as int)   // [C05] [C17]
+                && block_covered(old(self).rem().subrange(a, b), final(self).q(), old(self).q()),    // [C05] the events went to this parser's queue
             r.is_none() ==> final(self).q() == old(self).q(),
 enter:
-        hide(toks_ok);
+        hide(toks_ok); hide(is_block); hide(block_covered);
 after `self.block.clear();`:
         let ghost r0 = old(self).rem();
         let ghost mut ls: int = 0;     // start of the current line inside the block
-        proof { assert(r0.subrange(0, 0) =~= Seq::<Token>::empty()); assert(r0.skip(0) =~= r0); }
+        proof { assert(r0.subrange(0, 0) =~= Seq::<Token>::empty()); assert(r0.skip(0) =~= r0); lemma_rng_empty(r0, 0, 0); }
 after `let mut current_line = self.pull_line()?;`:
         proof { assert(Seq::<Token>::empty() + r0.subrange(0, self.blk().len() as int) =~= r0.subrange(0, self.blk().len() as int)); }
 loop 0:
             invariant self.wf(), self.ctx_same(old(self)), self.q() == old(self).q(), r0 == old(self).rem(), toks_ok(r0),
                 0 <= ls < self.blk().len() <= r0.len(), start == ls,
                 self.blk() == r0.subrange(0, self.blk().len() as int), self.rem() == r0.skip(self.blk().len() as int),
-                Self::all_blank(r0, 0, ls), ls == 0 || r0[ls - 1].kind == TokenKind::Newline,
-                current_line.is_empty == Self::all_blank(r0, ls, self.blk().len() as int),
+                all_blank(r0, 0, ls), ls == 0 || r0[ls - 1].kind == TokenKind::Newline,
+                current_line.is_empty == all_blank(r0, ls, self.blk().len() as int),
                 current_line.is_single_line == single_marker(r0[ls].kind),
-                Self::no_newline(r0, ls, self.blk().len() - 1),
+                no_newline(r0, ls, self.blk().len() - 1),
                 self.blk()[self.blk().len() - 1] == r0[self.blk().len() - 1],
                 r0[self.blk().len() - 1].kind != TokenKind::Newline ==> self.rem().len() == 0,
             decreases (if self.blk()[self.blk().len() - 1].kind == TokenKind::Newline { 1nat } else { 0nat }), self.fuel()
 loopbody 0:
             let ghost len0 = self.blk().len() as int;
+            proof { lemma_rng_join(r0, 0, ls, len0); lemma_line(r0, len0); }
 after `current_line = self.pull_line()?;`#1:
-            proof {
-                ls = len0;
-                let n = self.blk().len() - len0;
-                Self::lemma_line(r0, len0);
-            }
+            proof { ls = len0; }
 before `let multiline = !current_line.is_single_line;`:
-        let ghost w = choose|w: int| ls <= w < self.blk().len() && !empty_kind((#[trigger] r0[w]).kind);
+        proof { lemma_rng_empty(r0, self.blk().len() as int, self.blk().len() as int); }
 loop 1:
                 invariant_except_break
                     end == self.blk().len(),
                     r0[self.blk().len() - 1].kind != TokenKind::Newline ==> self.rem().len() == 0,
                 invariant self.wf(), self.ctx_same(old(self)), self.q() == old(self).q(), r0 == old(self).rem(), toks_ok(r0),
-                    ls <= w < end <= self.blk().len() <= r0.len(), start == ls, !empty_kind(r0[w].kind),
+                    ls < end <= self.blk().len() <= r0.len(), start == ls,
                     self.blk() == r0.subrange(0, self.blk().len() as int), self.rem() == r0.skip(self.blk().len() as int),
-                    Self::all_blank(r0, end as int, self.blk().len() as int),
+                    !all_blank(r0, ls, end as int), all_blank(r0, end as int, self.blk().len() as int),
                     self.blk()[self.blk().len() - 1] == r0[self.blk().len() - 1],
-                    Self::all_blank(r0, 0, ls), ls == 0 || r0[ls - 1].kind == TokenKind::Newline, !single_marker(r0[ls].kind),
+                    all_blank(r0, 0, ls), ls == 0 || r0[ls - 1].kind == TokenKind::Newline, !single_marker(r0[ls].kind),
                 decreases (if self.blk()[self.blk().len() - 1].kind == TokenKind::Newline { 1nat } else { 0nat }), self.fuel()
 loopbody 1:
-                proof { Self::lemma_line(r0, self.blk().len() as int); }
+                let ghost len1 = self.blk().len() as int;
+                proof { lemma_line(r0, len1); }
+after `end = self.block.len();`#1:
+                proof { lemma_rng_join(r0, ls, len1, end as int); lemma_rng_empty(r0, end as int, end as int); }
+before `while let mt![newline] = self.block[end - 1] {`:
+        proof {
+            lemma_rng_prefix(r0, self.blk().len() as int, ls, end as int);
+            lemma_rng_prefix(r0, self.blk().len() as int, end as int, self.blk().len() as int);
+        }
 loop 2:
-            invariant ls <= w < end <= self.blk().len() <= r0.len(), start == ls, !empty_kind(r0[w].kind),
-                self.wf(), self.ctx_same(old(self)), self.q() == old(self).q(), r0 == old(self).rem(), toks_ok(r0),
-                self.blk() == r0.subrange(0, self.blk().len() as int), self.rem() == r0.skip(self.blk().len() as int),
-                Self::all_blank(r0, end as int, self.blk().len() as int),
-                Self::all_blank(r0, 0, ls), ls == 0 || r0[ls - 1].kind == TokenKind::Newline,
-                single_marker(r0[ls].kind) ==> Self::no_newline(r0, ls, self.blk().len() - 1),
+            invariant ls < end <= self.blk().len(), start == ls,
+                !all_blank(self.blk(), ls, end as int), all_blank(self.blk(), end as int, self.blk().len() as int),
             ensures self.blk()[end - 1].kind != TokenKind::Newline,
             decreases end
+loopbody 2:
+            proof {
+                lemma_rng_one(self.blk(), end - 1);
+                lemma_rng_join(self.blk(), ls, end - 1, end as int);
+                lemma_rng_join(self.blk(), end - 1, end as int, self.blk().len() as int);
+                if ls == end - 1 { lemma_rng_empty(self.blk(), ls, ls); }
+            }
 before `let trimmed_block = &self.block[start..end];`:
         proof {
+            lemma_rng_prefix(r0, self.blk().len() as int, ls, end as int);
+            lemma_rng_prefix(r0, self.blk().len() as int, end as int, self.blk().len() as int);
+            assert(self.blk()[end - 1] == r0[end - 1]);
+            lemma_is_block(r0, ls, end as int, self.blk().len() as int);
             lemma_sub_ok(r0, 0, self.blk().len() as int);
             lemma_sub_ok(self.blk(), start as int, end as int);
             lemma_tok(self.blk().subrange(start as int, end as int), 0);
             broadcast use axiom_str_len_bound;
-            assert(self.blk()[end - 1] == r0[end - 1]);
-            assert(self.blk().subrange(start as int, end as int).last() == self.blk()[end - 1]);
-            assert(self.blk()[end - 1].kind != TokenKind::Newline);
-            assert(!Self::all_blank(r0, start as int, end as int));
-            assert(single_marker(r0[start as int].kind) ==> Self::no_newline(r0, start as int, end as int));
-            assert(Self::is_block(r0, start as int, end as int, self.blk().len() as int));
         }
 after `let mut bp = BlockParser::new(trimmed_block, self.input, &mut self.queue, self.extensions);`:
         let ghost bp0 = bp;
@@ -2515,35 +2583,9 @@ after `bp.finish();`:
         proof {
             assert(bp0.evs() == old(self).q()); assert(bp1.fin() == self.q());
             assert(self.blk().subrange(start as int, end as int) =~= r0.subrange(start as int, end as int));
-            assert(Self::block_covered(r0.subrange(start as int, end as int), self.q(), old(self).q()));
+            assert(block_covered(r0.subrange(start as int, end as int), self.q(), old(self).q())) by { reveal(block_covered); }
         }
 @*/
-    /// what one more line means for the caller's bookkeeping over the whole remaining stream `r0` (pull_line speaks about `r0.skip(l)`)
-    pub proof fn lemma_line(r0: Seq<Token>, l: int)
-        requires 0 <= l <= r0.len()
-        ensures
-            forall|n: int| 0 <= n <= r0.len() - l ==> r0.subrange(0, l) + #[trigger] r0.skip(l).subrange(0, n) == r0.subrange(0, l + n),
-            forall|n: int| 0 <= n <= r0.len() - l ==> #[trigger] r0.skip(l).skip(n) == r0.skip(l + n),
-            forall|n: int| 0 <= n <= r0.len() - l ==> #[trigger] Self::all_blank(r0.skip(l), 0, n) == Self::all_blank(r0, l, l + n),
-            forall|n: int| 0 <= n <= r0.len() - l ==> #[trigger] Self::no_newline(r0.skip(l), 0, n) == Self::no_newline(r0, l, l + n),
-    {
-        assert forall|n: int| 0 <= n <= r0.len() - l implies r0.subrange(0, l) + #[trigger] r0.skip(l).subrange(0, n) == r0.subrange(0, l + n) by {
-            assert(r0.subrange(0, l) + r0.skip(l).subrange(0, n) =~= r0.subrange(0, l + n));
-        }
-        assert forall|n: int| 0 <= n <= r0.len() - l implies #[trigger] r0.skip(l).skip(n) == r0.skip(l + n) by {
-            assert(r0.skip(l).skip(n) =~= r0.skip(l + n));
-        }
-        assert forall|n: int| 0 <= n <= r0.len() - l implies #[trigger] Self::all_blank(r0.skip(l), 0, n) == Self::all_blank(r0, l, l + n) by {
-            if Self::all_blank(r0.skip(l), 0, n) { assert forall|j: int| l <= j < l + n implies empty_kind((#[trigger] r0[j]).kind) by { assert(r0.skip(l)[j - l] == r0[j]); } }
-            if Self::all_blank(r0, l, l + n) { assert forall|j: int| 0 <= j < n implies empty_kind((#[trigger] r0.skip(l)[j]).kind) by { assert(r0.skip(l)[j] == r0[l + j]); } }
-        }
-        assert forall|n: int| 0 <= n <= r0.len() - l implies #[trigger] Self::no_newline(r0.skip(l), 0, n) == Self::no_newline(r0, l, l + n) by {
-            if Self::no_newline(r0.skip(l), 0, n) { assert forall|j: int| l <= j < l + n implies (#[trigger] r0[j]).kind != TokenKind::Newline by { assert(r0.skip(l)[j - l] == r0[j]); } }
-            if Self::no_newline(r0, l, l + n) { assert forall|j: int| 0 <= j < n implies (#[trigger] r0.skip(l)[j]).kind != TokenKind::Newline by { assert(r0.skip(l)[j] == r0[l + j]); } }
-        }
-    }
-
-
 }
 } // verus!
 } // mod parser_fns
